@@ -52,6 +52,7 @@ Consecutive(buf) == LET bs == Blocks(buf) IN
 (* ------------------------------------------------------------------ layer P: judge a recorded call *)
 (* e: pdu, bufsize, prev (stored before), flags, ident, master, stored (after), blocks (<<[k, len, ...]>>), fmt_ok *)
 Strip(b) == [x \in DOMAIN b \ {"off"} |-> b[x]]
+NormBlock(b) == IF b.k = "identifier" THEN [b EXCEPT !.ones = ToSet(@)] ELSE b
 DiagClause(e) ==
   LET info == DiagInfo(e.pdu)
       exp == Fill(e.prev, e.pdu, e.bufsize)
@@ -59,7 +60,7 @@ DiagClause(e) ==
   IN CASE MaskPerm(e.flags) # info.flags \/ e.ident # info.ident \/ e.master # info.master -> "C17.header"
        [] e.stored # exp -> "C17.fit"
        [] Len(e.blocks) # Len(bs) -> "C17.blocks"
-       [] \E i \in DOMAIN bs : e.blocks[i] # Strip(bs[i]) -> "C17.kinds"
+       [] \E i \in DOMAIN bs : NormBlock(e.blocks[i]) # Strip(bs[i]) -> "C17.kinds"
        [] ~e.fmt_ok -> "C17.total"
        [] OTHER -> "ok"
 =============================================================================
